@@ -19,6 +19,7 @@ package header
 import (
 	"bytes"
 	"encoding/binary"
+	"fmt"
 	"io"
 	"math/bits"
 	"sort"
@@ -38,6 +39,11 @@ func Write(w io.Writer, scalerType uint32, tables map[string][]byte) (int64, err
 	// only the tables which are written count: skipped entries must
 	// not appear in the directory
 	numTables := len(tableNames)
+	if numTables == 0 || numTables > maxTables {
+		// Read rejects such files, don't produce them
+		return 0, fmt.Errorf("sfnt/header: cannot write %d tables (allowed: 1 to %d)",
+			numTables, maxTables)
+	}
 
 	// sort the table names in the recommended order
 	sort.Slice(tableNames, func(i, j int) bool {
